@@ -52,7 +52,11 @@ def build_world(seed, n, sampler, monitors, r, p_fault=0.5, max_cycles=3, stalls
     scn = S.ns_scenario(seed, n) if sampler == "ns" else SI.ins_scenario(seed, n)
     plan, downtimes = [], []
     if r.random() < p_fault:
-        plan, downtimes = make_plan(r, r.randrange(1, max_cycles + 1))
+        if sampler == "ins":
+            # an INS run makes only a few (large) likelihood calls and few fs events per level
+            plan, downtimes = make_plan(r, r.randrange(1, max_cycles + 1), like_range=(2, 16), fs_range=(8, 60))
+        else:
+            plan, downtimes = make_plan(r, r.randrange(1, max_cycles + 1))
     if stalls and r.random() < 0.3:
         plan.append({"inc": 0, "kind": "stall", "call": r.randrange(3, 120), "dt": r.choice([5.0, 100.0, 1000.0])})
     w = {
